@@ -128,7 +128,7 @@ Definition Q_fill (f : nat) : Prop := forall data cap rl dst s ws vs A dn pn w',
     zlen pwords = pn /\
     w' = dstw (set_slots data A (firstn (Z.to_nat dn) ws ++ pwords) ++ bytes_of_words kids) cap' m rl' /\
     hinv (data ++ bytes_of_words kids) /\
-    forall F, (forall v, In v vs -> (vdepth (norm v) <= F)%nat) ->
+    forall F, (forall i, 0 <= i < pn -> (vdepth (norm (nthv vs i)) <= F)%nat) ->
       enc_cells (enc F) (map CP (firstn (Z.to_nat pn) (map norm vs))) (A / 8 + dn) (zlen data / 8) = COk (pwords, kids).
 
 Lemma fill_step f : Q_ptr f -> Q_fill (S f).
@@ -172,7 +172,7 @@ Proof.
                  kbind (of_res r) (fun p0 : Ptr =>
                  kbind (canonical_ptr c fx f wb 0 p0) (fun wc : world * Ptr =>
                  let '(w2, cp) := wc in of_res (struct_set_ptr 4 w2 dst i InDst cp)))) in *.
-  set (okF := fun F : nat => forall v, In v vs -> (vdepth (norm v) <= F)%nat).
+  set (okF := fun F : nat => forall i, 0 <= i < pn -> (vdepth (norm (nthv vs i)) <= F)%nat).
   assert (Hstep : forall i data0 cap0 rl0 w0, 0 <= i < zlen vals -> hinv data0 -> (A + 8 * dn) + 8 * zlen vals <= zlen data0 ->
             step (dstw data0 cap0 m rl0) i = KOk w0 ->
             exists word body cap' rl',
@@ -212,7 +212,7 @@ Proof.
     - split; [split; assumption|]. intros F HF.
       replace ((A + 8 * dn) / 8 + i) with (((A + 8 * dn) + 8 * i) / 8) by lia.
       replace (nth (Z.to_nat i) vals VNull) with (norm (nthv vs i)).
-      + apply Henc; try lia. apply HF. unfold nthv. apply nth_In. unfold zlen in *. lia.
+      + apply Henc; try lia. apply HF. unfold zlen in *. lia.
       + unfold vals, nthv. rewrite nth_firstn_lt by (unfold zlen in *; lia).
         change VNull with (norm VNull) at 2. rewrite map_nth. reflexivity. }
   replace (Z.to_nat pn) with (length vals) in H by (unfold zlen in Lvals; lia).
@@ -229,5 +229,32 @@ Proof.
     + intros F HF. specialize (Ec0 F HF). rewrite firstn_all in Ec0. rewrite Ls1 in Ec0.
       replace ((A + 8 * dn) / 8) with (A / 8 + dn) in Ec0 by lia. exact Ec0.
 Qed.
+
+(* ------------------------------------------------------------------ for the next step (canonicalPtr, struct case):
+   Q_fill f -> Q_ptr (S f) on [sdom]: canonicalStructSize_spec gives the size, alloc_seg0 the fresh block at the end
+   (set_slots_end), Q_fill the block and the children; remaining: assembling enc's struct case (enc_cells_app_words,
+   size checks, ptr_word = struct_word) -- drafted, not closed in this round *)
+Lemma stripN_firstn l : stripN l = firstn (length (stripN l)) l.
+Proof.
+  induction l as [|y r IH]; [reflexivity|]. cbn [stripN]. destruct (stripN r) eqn:E.
+  - destruct (is_null y); reflexivity.
+  - cbn [length] in *. change (firstn (S (S (length l))) (y :: r)) with (y :: firstn (S (length l)) r).
+    f_equal. exact IH.
+Qed.
+
+Lemma stripN_map_norm_length vs : length (stripN (map norm vs)) = length (stripN vs).
+Proof.
+  induction vs as [|y r IH]; [reflexivity|]. cbn [map stripN].
+  destruct (stripN (map norm r)) eqn:E1; destruct (stripN r) eqn:E2; cbn [length] in IH; try discriminate.
+  - rewrite is_null_norm. destruct (is_null y); reflexivity.
+  - cbn [length]. lia.
+Qed.
+
+Lemma set_slots_end data ws : set_slots (data ++ repeat 0 (8 * length ws)) (zlen data) ws = data ++ bytes_of_words ws.
+Proof.
+  unfold set_slots, zlen. rewrite Nat2Z.id, firstn_app, Nat.sub_diag, firstn_all. cbn [firstn]. rewrite app_nil_r.
+  f_equal. rewrite skipn_all2 by (rewrite app_length, repeat_length; lia). apply app_nil_r.
+Qed.
+
 
 End Ind.
